@@ -358,9 +358,18 @@ def check_duplicates(res, R, P, tier):
     import sympy
     from chempy import balance_stoichiometry
 
-    names_all, nR, subs, _ = _instance("V", R, P, tier)
-    rnames, pnames = names_all[:nR], names_all[nR:]
+    from chempy import Substance
+
     V = _vec(tier)
+    # species are named by their rank within this instance (n0, n1, ...): the same names come back in other instances with
+    # other compositions, as they do for a caller who re-uses generic names; every call gets fresh Substance objects
+    rank = {i: "n%d" % k for k, i in enumerate(sorted(set(R) | set(P)))}
+    CK = (1, 2, 0, 3)
+    subs = {}
+    for i, nm in rank.items():
+        comp = {ck: (x if isinstance(x, int) else float(x)) for ck, x in zip(CK, V[i]) if x != 0}
+        subs[nm] = Substance(nm, composition=comp)
+    rnames, pnames = [rank[i] for i in R], [rank[i] for i in P]
     res.states += 1
     res.transitions += 1
     res.evaluations += 1
@@ -387,7 +396,7 @@ def check_duplicates(res, R, P, tier):
             v.append("nonpositive")
         elif reduce(gcd, [int(e) for e in xs]) != 1:
             v.append("noncoprime")
-        idx = {("S%d" % i): i for i in set(R) | set(P)}
+        idx = {nm: i for i, nm in rank.items()}
         for row in range(3):
             tot = sum(Fr(V[idx[k]][row]) * c for k, c in p.items()) - sum(Fr(V[idx[k]][row]) * c for k, c in r.items())
             if tot != 0:
